@@ -78,13 +78,22 @@ func runScenario(t *testing.T, prop string, sc *Scenario, devs []vsched.Dev, kee
 		horizon = 60 * time.Second
 	}
 	s := vsched.New(devs, horizon)
-	synctest.Test(t, func(t *testing.T) {
-		s.Run(func() {
-			w = NewWorld(t, sc.Log)
-			defer w.Finish()
-			sc.Run(w)
+	func() {
+		defer func() {
+			// synctest panics when the bubble cannot end (goroutines blocked for ever):
+			// a harness/teardown problem of this execution, not a crash of the worker
+			if r := recover(); r != nil {
+				res.Infra = fmt.Sprintf("bubble did not terminate: %v", r)
+			}
+		}()
+		synctest.Test(t, func(t *testing.T) {
+			s.Run(func() {
+				w = NewWorld(t, sc.Log)
+				defer w.Finish()
+				sc.Run(w)
+			})
 		})
-	})
+	}()
 	res.Trace = s.Trace
 	res.States = s.StateHashes
 	res.MaxThreads = s.MaxThreads
